@@ -15,6 +15,12 @@ import c19_fam as fam
 from c19_fam import F, fs, close
 
 EPS64 = 2.220446049250313e-16
+EPS = {"float64": 2.220446049250313e-16, "float32": 1.1920928955078125e-07}
+# model (Float = binary64) vs implementation: binary64 to 1e-9; a binary32 implementation is compared
+# with the binary64 model evaluated at the SAME (binary32) inputs to 1e-4 (relative to max(1, |x|))
+TOL_D = {"float64": 1e-9, "float32": 1e-4}
+TOL_G = {"float64": 1e-8, "float32": 1e-4}
+F32_EXP_MAX = 88.72          # torch.exp overflows binary32 above 88.7228...
 
 
 def _dy(rng, lo, hi, den):
@@ -37,28 +43,90 @@ def _logits(rng, n):
     return [fs(_dy(rng, -2, 2, 8)) for _ in range(n)]
 
 
-def _family(rng, which=None, max_points=9):
+# near-boundary parameters for the estimator families.  Exactly 0 / 1 (and logits beyond +-36, where
+# float64 sigmoid rounds to 1) are NOT in the estimators' domain: the theorems assume P(b) != 0 on the
+# sample space, and torch's own clamp_probs cuts the gradient of log P there.
+_T24 = Fr(1, 1 << 24)
+
+
+def _edge_probs(rng, n):
+    th = [fs(rng.choice([_T24, 1 - _T24, Fr(1, 1 << 12), 1 - Fr(1, 1 << 12)])) for _ in range(n)]
+    for j in range(1, n):
+        if rng.random() < 0.5:
+            th[j] = _probs(rng, 1)[0]
+    return th
+
+
+def _edge_simplex(rng, V):
+    small = [rng.choice([_T24, Fr(1, 1 << 12)]) for _ in range(V - 1)]
+    th = small + [1 - sum(small)]
+    rng.shuffle(th)
+    return [fs(x) for x in th]
+
+
+def _edge_logits(rng, n):
+    th = [fs(Fr(rng.choice([-20, -17, 17, 20]))) for _ in range(n)]
+    for j in range(1, n):
+        if rng.random() < 0.5:
+            th[j] = _logits(rng, 1)[0]
+    rng.shuffle(th)
+    return th
+
+
+def _family(rng, which=None, max_points=9, edge=False, par=None):
     which = which or rng.choice(["bern1", "bern2", "bern3", "cat2w", "cat3", "onehot3", "cat2"])
-    par = rng.choice(["probs", "logits"])
+    par = par or rng.choice(["probs", "logits"])
+    probs = _edge_probs if edge else _probs
+    simplex = _edge_simplex if edge else _simplex
+    logits = _edge_logits if edge else _logits
     if which.startswith("bern"):
         n = int(which[4])
-        th = _probs(rng, n) if par == "probs" else _logits(rng, n)
+        th = probs(rng, n) if par == "probs" else logits(rng, n)
         return {"fam": "bern", "param": par, "theta": th}
     if which in ("cat2w", "cat3", "onehot3", "onehot2"):
         V = int(which[-1]) if which[-1].isdigit() else 2
         f = "onehot" if which.startswith("onehot") else "cat"
         if par == "probs":
-            th = _simplex(rng, V)
+            th = simplex(rng, V)
             if rng.random() < 0.3:      # unnormalised (sum 2): torch normalises
                 th = [fs(2 * F(x)) for x in th]
         else:
-            th = _logits(rng, V)
+            th = logits(rng, V)
         return {"fam": f, "param": par, "theta": th}
     if which == "cat2":
         V = rng.choice([2, 3])
-        th = [_simplex(rng, V), _simplex(rng, V)] if par == "probs" else [_logits(rng, V), _logits(rng, V)]
+        th = [simplex(rng, V), simplex(rng, V)] if par == "probs" else [logits(rng, V), logits(rng, V)]
         return {"fam": "cat2", "param": par, "theta": th}
     raise ValueError(which)
+
+
+def _is_edge(spec):
+    """does a family instance carry a near-boundary parameter?"""
+    th = spec["theta"]
+    flat = [x for r in th for x in r] if spec["fam"] == "cat2" else th
+    if spec["param"] == "probs":
+        return any(F(x) < Fr(1, 1000) for x in flat)
+    return any(abs(F(x)) >= 17 for x in flat)
+
+
+# ---- relaxed distributions: parameter values and draws, boundary and near-boundary included
+U_GRID = [Fr(0), Fr(1, 1 << 40), Fr(1, 16), Fr(1, 4), Fr(1, 2), Fr(3, 4), Fr(15, 16),
+          1 - Fr(1, 1 << 24), 1 - Fr(1, 1 << 40), 1 - Fr(1, 1 << 53), Fr(1)]
+LB_SIGMOID = [Fr(-6), Fr(-3, 2), Fr(0), Fr(1, 4), Fr(2), Fr(7)]          # probs = sigmoid(.), interior
+LB_PROBS = [Fr(0), Fr(1, 1 << 60), Fr(1, 1 << 53), _T24, Fr(1, 16), Fr(1, 2), Fr(15, 16), 1 - _T24,
+            1 - Fr(1, 1 << 53), Fr(1)]
+LB_LOGITS = [Fr(x) for x in (-100, -88, -37, -20, -17, 17, 20, 37, 88, 100)] + [Fr(-6), Fr(-3, 2), Fr(0),
+                                                                               Fr(1, 4), Fr(2), Fr(7)]
+G_GRID = [Fr(0), Fr(1, 1 << 40), Fr(1, 1 << 13), Fr(1, 1 << 10), Fr(1, 16), Fr(1, 2), Fr(15, 16),
+          1 - Fr(1, 1 << 24), 1 - Fr(1, 1 << 53), Fr(1)]
+G_GRID_Q = [Fr(0), Fr(1, 1 << 40), Fr(1, 1 << 13), Fr(1, 2), 1 - Fr(1, 1 << 24), 1 - Fr(1, 1 << 53), Fr(1)]
+G_EDGE = [("probs", [Fr(1), Fr(0)]), ("probs", [Fr(0), Fr(1)]), ("probs", [1 - _T24, _T24]),
+          ("probs", [Fr(2), Fr(0)]), ("probs", [Fr(1, 2), Fr(1, 2)]),
+          ("logits", [Fr(0), Fr(-20)]), ("logits", [Fr(-88), Fr(0)]), ("logits", [Fr(0), Fr(100)]),
+          ("probs", [Fr(0), Fr(1), Fr(0)]), ("probs", [Fr(0), Fr(0), Fr(1)]), ("probs", [Fr(1), Fr(0), Fr(0)]),
+          ("probs", [Fr(1, 2), Fr(1, 2), Fr(0)]), ("probs", [_T24, 1 - 2 * _T24, _T24]),
+          ("logits", [Fr(88), Fr(0), Fr(-88)]), ("logits", [Fr(0), Fr(0), Fr(-37)]),
+          ("logits", [Fr(20), Fr(-20), Fr(0)])]
 
 
 def _table(rng, M):
@@ -134,25 +202,56 @@ class C19(PropertyCheck):
             for given in range(0, total + 1):
                 yield {"kind": "srswor_dist", "total": total, "given": given,
                        "out_size": total + (given % 2), "seed": rng.randrange(1 << 30)}
+        for total in ((12, 33, 64) if not big else (12, 20, 33, 64, 100, 257)):
+            for given in sorted({0, 1, total // 2, total - 1, total}):
+                yield {"kind": "srswor_dist", "total": total, "given": given, "out_size": total + (given % 2),
+                       "seed": rng.randrange(1 << 30), "enumerate": False}
         # malformed: documented RuntimeError
         yield {"kind": "srswor", "via": "function", "out_size": 3,
                "elems": [{"total": 2, "given": 3, "bits": [0, 0]}]}
         yield {"kind": "srswor", "via": "function", "out_size": 1,
                "elems": [{"total": 3, "given": 1, "bits": [0, 0, 0]}]}
-        # ---- relaxed distributions: grid
-        grid = [Fr(0), Fr(1, 1 << 40), Fr(1, 16), Fr(1, 4), Fr(1, 2), Fr(3, 4), Fr(15, 16),
-                1 - Fr(1, 1 << 40), 1 - Fr(1, 1 << 53)]
-        lgs = [Fr(-6), Fr(-3, 2), Fr(0), Fr(1, 4), Fr(2), Fr(7)]
-        for lg in lgs:
-            for u in grid:
-                for v in (grid if big else rng.sample(grid, 4)):
-                    yield {"kind": "bern", "param": rng.choice(["logits", "probs"]), "logit": fs(lg),
+        # ---- relaxed distributions.  LogisticBernoulli: every parameter value (probs given directly incl.
+        # exactly 0 and 1 and 2^-24 / 2^-53 next to them; logits up to +-100, i.e. beyond where sigmoid
+        # rounds to 0/1 in either dtype; interior probs = sigmoid(.)) x every draw of the grid (incl. 0
+        # and 1, which clamp_probs must absorb) x both dtypes.  rsample depends on u only and csample on
+        # v only, so the quick tier pairs u_i with v_(i+shift) instead of the full product.
+        bparams = ([("sigmoid", x) for x in LB_SIGMOID] + [("probs", x) for x in LB_PROBS]
+                   + [("logits", x) for x in LB_LOGITS])
+        for dtype in ("float64", "float32"):
+            for par, val in bparams:
+                if big:
+                    pairs = [(u, v) for u in U_GRID for v in U_GRID]
+                else:
+                    sh = rng.randrange(len(U_GRID))
+                    pairs = [(u, U_GRID[(i + sh) % len(U_GRID)]) for i, u in enumerate(U_GRID)]
+                for u, v in pairs:
+                    yield {"kind": "bern", "param": par, "value": fs(val), "dtype": dtype,
                            "u": fs(u), "v": fs(v)}
+        # GumbelOneHotCategorical: random interior logits / simplex points, plus the boundary list
+        # (one-hot and near-one-hot probs, unnormalised probs, logits spread by 20 / 88 / 100), every
+        # conditioning class (also the zero-probability ones), both dtypes.  For two classes the
+        # conditional draws run over the whole (reduced in quick) grid squared.
         for _ in range(150 if not big else 1500):
             V = rng.choice([2, 3])
-            yield {"kind": "gumbel", "logits": _logits(rng, V),
-                   "us": [fs(rng.choice(grid)) for _ in range(V)],
-                   "vs": [fs(rng.choice(grid)) for _ in range(V)], "k": rng.randrange(V)}
+            par = rng.choice(["logits", "probs"])
+            th = _logits(rng, V) if par == "logits" else _simplex(rng, V)
+            yield {"kind": "gumbel", "param": par, "theta": th, "dtype": rng.choice(["float64", "float32"]),
+                   "us": [fs(rng.choice(G_GRID)) for _ in range(V)],
+                   "vs": [fs(rng.choice(G_GRID)) for _ in range(V)], "k": rng.randrange(V)}
+        gq = G_GRID if big else G_GRID_Q
+        for dtype in ("float64", "float32"):
+            for par, th in G_EDGE:
+                V = len(th)
+                if V == 2:
+                    vss = [list(t) for t in itertools.product(gq, repeat=2)]
+                else:
+                    vss = [[rng.choice(G_GRID) for _ in range(V)] for _ in range(40 if not big else 400)]
+                for vs in vss:
+                    for k in (range(V) if V == 2 else [rng.randrange(V)]):
+                        yield {"kind": "gumbel", "param": par, "theta": [fs(x) for x in th], "dtype": dtype,
+                               "us": [fs(rng.choice(G_GRID)) for _ in range(V)],
+                               "vs": [fs(x) for x in vs], "k": k}
         # ---- estimators: whole sample space
         reps = 2 if not big else 12
         for _ in range(reps):
@@ -173,6 +272,26 @@ class C19(PropertyCheck):
                 if which in ("bern1", "cat2w", "cat3", "onehot3"):
                     sp = _family(rng, which)
                     yield {"kind": "enumerate", "dist": sp, "f": _table(rng, fam.n_points(sp))}
+        # the same with near-boundary parameters (2^-24, 1 - 2^-24, 2^-12; logits +-17, +-20): every
+        # family x both parametrisations, N = 1 (and N = 2 in the larger tiers)
+        for _ in range(1 if not big else 4):
+            for which in ALL_FAMS:
+                for par in ("probs", "logits"):
+                    for N in ((1,) if not big else (1, 2)):
+                        sp = _family(rng, which, edge=True, par=par)
+                        M = fam.n_points(sp)
+                        cvmode = rng.choice(["none", "cv", "cv_detached"])
+                        yield {"kind": "direct", "dist": sp, "N": N, "f": _table(rng, M),
+                               "c": None if cvmode == "none" else _table(rng, M),
+                               "cv_mean_detached": cvmode == "cv_detached"}
+                        sq = _family(rng, which, edge=rng.random() < 0.5, par=rng.choice(["probs", "logits"]))
+                        while fam.n_points(sq) != M or sq["fam"] != sp["fam"]:
+                            sq = _family(rng, which, edge=rng.random() < 0.5)
+                        yield {"kind": "is", "proposal": sp, "density": rng.choice([sq, "same"]), "N": N,
+                               "f": _table(rng, M)}
+                    if which in ("bern1", "cat2w", "cat3", "onehot3"):
+                        sp = _family(rng, which, edge=True, par=par)
+                        yield {"kind": "enumerate", "dist": sp, "f": _table(rng, fam.n_points(sp))}
         for total in range(1, 5):
             for given in range(0, total + 1):
                 yield {"kind": "enumerate_srswor", "total": total, "given": given,
@@ -182,7 +301,7 @@ class C19(PropertyCheck):
         us = [Fr(0), Fr(1, 1 << 30), Fr(1, 8), Fr(1, 2), Fr(7, 8), 1 - Fr(1, 1 << 24)]
         for _ in range(60 if not big else 600):
             which = rng.choice(["bern1", "bern2", "cat3", "onehot3"])
-            sp = _family(rng, which)
+            sp = _family(rng, which, edge=rng.random() < 0.25)
             M = fam.n_points(sp)
             N = rng.randint(1, 5)
             same = rng.random() < 0.6
@@ -195,18 +314,34 @@ class C19(PropertyCheck):
                    "init": rng.choice([None, rng.randrange(M)]),
                    "draws": [rng.randrange(M) for _ in range(N + 1)],
                    "us": [fs(rng.choice(us)) for _ in range(N)], "f": _table(rng, M)}
-        # ---- relaxation-based estimators
-        for _ in range(6 if not big else 40):
-            k = rng.randint(1, 15)
-            yield {"kind": "st_value", "ks": [k] if rng.random() < 0.5 else [k, rng.randint(1, 15)],
+        # ---- relaxation-based estimators; p = k/16 for EVERY k in 0..16 (p = 0 and p = 1 included: the
+        # estimate must then be f(0) resp. f(1) exactly)
+        ks_all = list(range(0, 17))
+        for i in range(6 if not big else 40):
+            k = rng.choice([0, 16]) if i < 2 else rng.randint(0, 16)
+            yield {"kind": "st_value", "ks": [k] if rng.random() < 0.5 else [k, rng.choice(ks_all)],
                    "f": _table(rng, 4)}
             yield {"kind": "relax_value", "k": k, "f": _table(rng, 2),
                    "cv": [fs(_dy(rng, -2, 2, 4)), fs(_dy(rng, -2, 2, 4)), fs(_dy(rng, 1, 3, 4))]}
-        for _ in range(30 if not big else 300):
+        for k in (0, 16):
+            yield {"kind": "st_value", "ks": [k], "f": _table(rng, 4)}
+            yield {"kind": "relax_value", "k": k, "f": _table(rng, 2),
+                   "cv": [fs(_dy(rng, -2, 2, 4)), fs(_dy(rng, -2, 2, 4)), fs(_dy(rng, 1, 3, 4))]}
+        cdraw = [Fr(0), Fr(1, 1 << 40), 1 - Fr(1, 1 << 53), Fr(1)]
+        for i in range(40 if not big else 400):
             N = rng.choice([1, 2, 3])
-            yield {"kind": "relax_comb", "logit": fs(_dy(rng, -2, 2, 8)), "N": N,
-                   "us": [fs(Fr(rng.randint(1, 63), 64)) for _ in range(N)],
-                   "vs": [fs(Fr(rng.randint(1, 63), 64)) for _ in range(N)], "f": _table(rng, 2),
+            if i % 4 == 0:       # boundary parameter: probs in {0, 1, 2^-24, 1-2^-24} or saturated logits
+                par = rng.choice(["probs", "logits"])
+                val = rng.choice([Fr(0), Fr(1), _T24, 1 - _T24] if par == "probs"
+                                 else [Fr(x) for x in (-88, -37, -20, 20, 37, 88)])
+            else:
+                par, val = "logits", _dy(rng, -2, 2, 8)
+
+            def draw():
+                return rng.choice(cdraw) if rng.random() < 0.15 else Fr(rng.randint(1, 63), 64)
+            yield {"kind": "relax_comb", "param": par, "value": fs(val), "N": N,
+                   "us": [fs(draw()) for _ in range(N)],
+                   "vs": [fs(draw()) for _ in range(N)], "f": _table(rng, 2),
                    "cv": [fs(_dy(rng, -2, 2, 4)), fs(_dy(rng, -2, 2, 4)), fs(_dy(rng, 1, 3, 4))]}
 
     # ================================================================ implementation
